@@ -6,6 +6,7 @@ import (
 	"io/fs"
 	goos "os"
 	"reflect"
+	"regexp"
 	"sort"
 	"strings"
 	"sync"
@@ -42,6 +43,33 @@ type osTemplate struct {
 	Stdout   string   // text that must land in the simulated stdout
 	Stderr   string
 	ExitCode int // expected recorded exit request (-1 none)
+	// deferred form (context "defer-after-cancel"): DeferPre runs first, then
+	// the single builtin call Deferred is registered with defer, the function
+	// spins, and the evaluation is cancelled; the deferred call runs during the
+	// unwind and must be served by the supplied OS
+	DeferPre     string
+	Deferred     string
+	DeferMethods []string
+	DeferStdout  string
+}
+
+// c12Deferred gives some templates a deferred form.
+var c12Deferred = map[string]osTemplate{
+	"builtin.print":  {Deferred: `print("DEFER-PRINT-MARK")`, DeferMethods: []string{"Std.Write"}, DeferStdout: "DEFER-PRINT-MARK"},
+	"builtin.printf": {Deferred: `printf("DEFER-%d-MARK", 7)`, DeferMethods: []string{"Std.Write"}, DeferStdout: "DEFER-7-MARK"},
+	"fmt.println":    {Deferred: `fmt.println("DEFER-FMT-MARK")`, DeferMethods: []string{"Std.Write"}, DeferStdout: "DEFER-FMT-MARK"},
+	"fmt.printf":     {Deferred: `fmt.printf("DEFERF-%s-MARK", "x")`, DeferMethods: []string{"Std.Write"}, DeferStdout: "DEFERF-x-MARK"},
+	"os.setenv":      {Deferred: `os.setenv("SIMKEY", "set-by-defer")`, DeferMethods: []string{"Setenv"}},
+	"builtin.setenv": {Deferred: `setenv("SIMKEY2", "d2")`, DeferMethods: []string{"Setenv"}},
+	"os.unsetenv":    {Deferred: `os.unsetenv("VERIF_SENTINEL")`, DeferMethods: []string{"Unsetenv"}},
+	"os.remove":      {Deferred: `os.remove("a.txt")`, DeferMethods: []string{"Remove"}},
+	"os.mkdir":       {Deferred: `os.mkdir("deferdir")`, DeferMethods: []string{"Mkdir"}},
+	"os.rename":      {Deferred: `os.rename("a.txt", "z.txt")`, DeferMethods: []string{"Rename"}},
+	"os.write_file":  {Deferred: `os.write_file("dw.txt", "written-by-defer")`, DeferMethods: []string{"WriteFile"}},
+	"os.chdir":       {Deferred: `os.chdir("/simroot/work/dir")`, DeferMethods: []string{"Chdir"}},
+	"file.close":     {DeferPre: `f := os.open("a.txt")`, Deferred: `f.close()`, DeferMethods: []string{"Open", "File.Close"}},
+	"file.write":     {DeferPre: `f := os.create("fw.txt")`, Deferred: `f.write("deferred-write")`, DeferMethods: []string{"Create", "File.Write"}},
+	"os.stdout":      {DeferPre: `so := os.stdout`, Deferred: `so.write("DEFER-OUT-MARK")`, DeferMethods: []string{"Std.Write"}, DeferStdout: "DEFER-OUT-MARK"},
 }
 
 func osTemplates() []osTemplate {
@@ -131,7 +159,7 @@ func osTemplates() []osTemplate {
 		{Name: "builtin.printf", Covers: "builtin.printf", Body: `printf("PF-%d-MARK", 7); return "p"`, Methods: []string{"Stdout", "Std.Write"}, Stdout: "PF-7-MARK", ExitCode: -1},
 		// fmt module
 		{Name: "fmt.println", Covers: "fmt.println", Body: `fmt.println("FMT-MARK"); return "p"`, Methods: []string{"Stdout", "Std.Write"}, Stdout: "FMT-MARK\n", ExitCode: -1},
-		{Name: "fmt.printf", Covers: "fmt.printf", Body: `fmt.printf("FMTF-%s", "x"); return "p"`, Methods: []string{"Stdout", "Std.Write"}, Stdout: "FMTF-x", ExitCode: -1},
+		{Name: "fmt.printf", Covers: "fmt.printf", Body: `fmt.printf("FMTF-%s-MARK", "x"); return "p"`, Methods: []string{"Stdout", "Std.Write"}, Stdout: "FMTF-x-MARK", ExitCode: -1},
 		P("fmt.sprintf", `return fmt.sprintf("%d-%s", 5, "s")`, []string{"5-s"}),
 		P("fmt.errorf", `return string(fmt.errorf("e-%d", 1))`, []string{"e-1"}),
 		P("builtin.sprintf", `return sprintf("%d", 9)`, []string{"9"}),
@@ -159,6 +187,11 @@ func osTemplates() []osTemplate {
 		T("file.seek", `f := os.open("a.txt"); f.seek(6, 0); b := f.read(byte_slice([0, 0, 0])); f.close(); return string(b)`, []string{"sim"}, []string{"Open", "File.Seek", "File.Read"}, true),
 		T("file.read_lines", `f := os.open("a.txt"); l := f.read_lines(); f.close(); return string(l)`, []string{"alpha-sim", "line2-sim"}, []string{"Open", "File.Read"}, true),
 		T("file.iter", `f := os.open("a.txt"); ls := []; for _, line := range f { ls.append(line) }; f.close(); return string(ls)`, []string{"alpha-sim", "line2-sim"}, []string{"Open", "File.Read"}, true),
+	}
+	for i := range ts {
+		if d, ok := c12Deferred[ts[i].Name]; ok {
+			ts[i].DeferPre, ts[i].Deferred, ts[i].DeferMethods, ts[i].DeferStdout = d.DeferPre, d.Deferred, d.DeferMethods, d.DeferStdout
+		}
 	}
 	return ts
 }
@@ -220,9 +253,52 @@ func c12Uncovered(ts []osTemplate) []string {
 	return missing
 }
 
-var c12Contexts = []string{"top", "spawn", "go-chan", "clone-call", "module-body", "module-func", "callback", "defer", "vm-reuse", "vm-reuse-spawn", "vm-reuse-call", "vm-reuse-os-kept", "nested-eval"}
-var c12Routes = []string{"WithOS", "ctx", "ctx-layered"}
+var c12Contexts = []string{"top", "spawn", "go-chan", "clone-call", "module-body", "module-func", "callback", "defer", "vm-reuse", "vm-reuse-spawn", "vm-reuse-call", "vm-reuse-os-kept", "nested-eval", "defer-after-cancel", "after-failed-output"}
+var c12Routes = []string{"WithOS", "ctx", "ctx-layered", "vos"}
 var c12Faults = []string{"none", "fail-first", "fail-all", "relative-cwd"}
+
+// c12Multiplier returns a multiplier coprime to total.
+func c12Multiplier(total int) int {
+	gcd := func(a, b int) int {
+		for b != 0 {
+			a, b = b, a%b
+		}
+		return a
+	}
+	for _, m := range []int{7919, 104729, 1299709, 15485863, 1} {
+		if gcd(m, total) == 1 {
+			return m
+		}
+	}
+	return 1
+}
+
+var c12MarkRe = regexp.MustCompile(`[A-Za-z0-9-]*MARK`)
+
+// c12ForeignOutput looks for output markers in the simulated stdout/stderr that
+// this template cannot have produced (text of another evaluation), or that
+// appear more often than the template prints them.
+func c12ForeignOutput(t osTemplate, output string) string {
+	count := func(text string) map[string]int {
+		m := map[string]int{}
+		for _, tok := range c12MarkRe.FindAllString(text, -1) {
+			m[tok]++
+		}
+		return m
+	}
+	src := count(t.Body + " " + t.DeferPre + " " + t.Deferred)
+	exp := count(t.Stdout + " " + t.Stderr + " " + t.DeferStdout)
+	for tok, n := range count(output) {
+		allowed := src[tok]
+		if exp[tok] > allowed {
+			allowed = exp[tok]
+		}
+		if n > allowed {
+			return fmt.Sprintf("%q x%d (this evaluation prints it %d time(s))", tok, n, allowed)
+		}
+	}
+	return ""
+}
 
 func c12Total() int { return len(osTemplates()) * len(c12Contexts) * len(c12Routes) * len(c12Faults) }
 
@@ -277,7 +353,7 @@ func c12Source(t osTemplate, context string) (main string, modules map[string]st
 	probe := "func probe() {\n" + strings.ReplaceAll(t.Body, "; ", "\n") + "\n}\n"
 	handler := `func(e) { return "ERR:" + string(e) }`
 	switch context {
-	case "top":
+	case "top", "after-failed-output":
 		return probe + "try(probe, " + handler + ")\n", nil
 	case "spawn":
 		return probe + "t := spawn(func() { return try(probe, " + handler + ") })\nt.wait()\n", nil
@@ -297,6 +373,11 @@ func c12Source(t osTemplate, context string) (main string, modules map[string]st
 		return probe + "func entry() { return try(probe, " + handler + ") }\n\"defined\"\n", nil
 	case "callback":
 		return probe + "[1].map(func(x) { return try(probe, " + handler + ") })[0]\n", nil
+	case "defer-after-cancel":
+		if t.Deferred == "" {
+			return "", nil
+		}
+		return "func d() {\n" + t.DeferPre + "\ndefer " + t.Deferred + "\nx := 0\nfor { x++ }\n}\nd()\n", nil
 	case "defer":
 		return probe + "result := \"unset\"\nfunc d() { defer func() { result = try(probe, " + handler + ") }(); return 0 }\nd()\nresult\n", nil
 	}
@@ -326,7 +407,12 @@ func runC12(rc *fw.RunCtx) {
 	// index -> tuple. Quick tier: a seeded sample of the product (the driver
 	// hands out indices; we map them through a seeded stride so that different
 	// seeds cover different subsets). Thorough: index modulo the product.
-	idx := rc.Index % total
+	// consecutive indices (and the indices one worker process gets, which are a
+	// fixed stride apart) are scattered over the product by a bijection, so
+	// that one process sees all fault modes, routes and contexts interleaved:
+	// state that survives in the process from one evaluation to the next (a
+	// pool, a cache) is then exercised across different configurations
+	idx := int((int64(rc.Index%total) * int64(c12Multiplier(total))) % int64(total))
 	round := rc.Index / total // thorough: every tuple again under other schedules and errnos
 	fault := c12Faults[idx%len(c12Faults)]
 	idx /= len(c12Faults)
@@ -340,6 +426,19 @@ func runC12(rc *fw.RunCtx) {
 		// exit(n>0) raises a fatal evaluation error, which ends the goroutine
 		// of a go statement silently; the combination has nothing to observe
 		rc.Hit("skipped_combo_exit_in_go_statement")
+		rc.Digest = sim.HashString(t.Name + "|" + ctxName + "|" + route + "|" + fault)
+		rc.NonTrivial = true
+		return
+	}
+	if ctxName == "defer-after-cancel" && t.Deferred == "" {
+		rc.Hit("skipped_combo_no_deferred_form")
+		rc.Digest = sim.HashString(t.Name + "|" + ctxName + "|" + route + "|" + fault)
+		rc.NonTrivial = true
+		return
+	}
+	if route == "vos" && fault != "none" {
+		// risor's own VirtualOS has no fault plan; only the fault-free mode applies
+		rc.Hit("skipped_combo_vos_with_fault_mode")
 		rc.Digest = sim.HashString(t.Name + "|" + ctxName + "|" + route + "|" + fault)
 		rc.NonTrivial = true
 		return
@@ -369,6 +468,7 @@ func runC12(rc *fw.RunCtx) {
 	})
 	goos.Setenv("VERIF_SENTINEL", "real-value")
 	goos.Setenv("REALONLY", "only-real")
+	goos.Setenv("HOME", "/home/only-real-home")
 	before := realSnapshot()
 
 	sos := simos.New()
@@ -415,6 +515,17 @@ func runC12(rc *fw.RunCtx) {
 		opts = append(opts, risor.WithOS(sos))
 	case "ctx":
 		ctx = ros.WithOS(ctx, sos)
+	case "vos":
+		// risor's own VirtualOS as the host OS: a minimal configuration (no home,
+		// cache or config directory, no users), so that every default it falls
+		// back to is visible. There is no call log; what is checked is that
+		// nothing of the real machine shows up and nothing real is touched.
+		vos := c12VirtualOS(ctx)
+		if round%2 == 0 {
+			opts = append(opts, risor.WithOS(vos))
+		} else {
+			ctx = ros.WithOS(ctx, vos)
+		}
 	default: // ctx-layered: the host OS is layered over a context that already carries one
 		ctx = ros.WithOS(ros.WithOS(ctx, decoy), sos)
 	}
@@ -522,9 +633,39 @@ func runC12(rc *fw.RunCtx) {
 				return machine.Call(ctx, fnObj.(*object.Function), nil)
 			})
 		})
+	} else if ctxName == "after-failed-output" {
+		// another tenant's evaluation, on another OS whose terminal refuses every
+		// write, printed just before: nothing of what it tried to print may show
+		// up on this evaluation's terminal
+		other := simos.New()
+		other.FailAll = true
+		oopts := append(append([]risor.Option{}, optsNoOS...), risor.WithOS(other))
+		const stale = `try(func() { print("STALE-A-MARK") }, func(e) { return 0 })
+try(func() { printf("STALE-B-%d-MARK", 1) }, func(e) { return 0 })
+try(func() { fmt.println("STALE-C-MARK") }, func(e) { return 0 })
+try(func() { fmt.printf("STALE-D-%s-MARK", "x") }, func(e) { return 0 })
+try(func() { os.stdout.write("STALE-E-MARK") }, func(e) { return 0 })
+try(func() { os.stderr.write("STALE-F-MARK") }, func(e) { return 0 })
+`
+		s.Go("main", "main", func() {
+			guard(out, func() (object.Object, error) {
+				if _, err := risor.Eval(context.Background(), stale, oopts...); err != nil {
+					return nil, fmt.Errorf("harness: the other tenant's evaluation failed: %w", err)
+				}
+				return risor.Eval(ctx, src, opts...)
+			})
+		})
 	} else {
 		s.Go("main", "main", func() {
 			guard(out, func() (object.Object, error) { return risor.Eval(ctx, src, opts...) })
+		})
+	}
+	if ctxName == "defer-after-cancel" {
+		// the evaluation is cancelled while d() spins with its deferred call pending
+		s.AtStep(60+int(rc.Tape.Stream("fault").Intn(200)), "cancel", func() {
+			rc.Hit("fault_cancel")
+			cancel()
+			s.SetStrategy(sim.Fair{})
 		})
 	}
 	s.Until = func() bool { return out.Done && len(aliveExcept(s, "vm.watcher", "file.watcher")) == 0 }
@@ -561,8 +702,42 @@ func runC12(rc *fw.RunCtx) {
 		rc.Violate("panic/api/"+locus, "%s: panic reached the caller: %v", tuple, out.Panic)
 		return
 	}
+	if foreign := c12ForeignOutput(t, sos.StdoutString()+" "+sos.StderrString()); foreign != "" {
+		rc.Violate("mediation/foreign-output/"+t.Covers, "%s: the simulated terminal received output of another evaluation: %s; stdout %q stderr %q", tuple, foreign, sos.StdoutString(), sos.StderrString())
+		return
+	}
 	if verdict != sim.Done || !out.Done {
 		rc.Violate("liveness/"+locus, "%s: did not finish (verdict %s)", tuple, verdict)
+		return
+	}
+	if route == "vos" {
+		res := out.String()
+		if leak := c12Leak(res); leak != "" {
+			rc.Violate("divergence/real-data/"+locus, "%s: with risor's VirtualOS as the host OS the result %q carries %s", tuple, res, leak)
+		}
+		return
+	}
+	if ctxName == "defer-after-cancel" {
+		if out.Err == nil {
+			rc.Violate("error/missing/"+locus, "%s: the cancelled evaluation returned %s without an error", tuple, out.String())
+			return
+		}
+		methods := sos.Methods()
+		if fault == "none" || fault == "relative-cwd" {
+			for _, m := range t.DeferMethods {
+				if methods[m] == 0 {
+					rc.Violate("mediation/not-logged/"+locus, "%s: the deferred call ran during the unwind of a cancelled evaluation, but the simulated OS never saw %s (calls %v)", tuple, m, callStrs)
+					return
+				}
+			}
+			if t.DeferStdout != "" && !strings.Contains(sos.StdoutString(), t.DeferStdout) {
+				rc.Violate("mediation/stdout/"+locus, "%s: simulated stdout %q lacks %q", tuple, sos.StdoutString(), t.DeferStdout)
+				return
+			}
+		}
+		if len(decoy.Calls()) > 3 {
+			rc.Violate("mediation/wrong-os-instance/"+locus, "%s: calls reached an OS instance that was not the one supplied for this evaluation", tuple)
+		}
 		return
 	}
 	if out.Err != nil {
@@ -677,6 +852,26 @@ func runC12(rc *fw.RunCtx) {
 		rc.Violate("mediation/wrong-os-instance/"+locus, "%s: calls reached an OS instance that was not the one supplied for this evaluation: %v (result %q)", tuple, dc, res)
 		return
 	}
+}
+
+// c12VirtualOS builds a VirtualOS over in-memory filesystems, configured as
+// little as possible.
+func c12VirtualOS(ctx context.Context) *ros.VirtualOS {
+	mfs := ros.NewMockFS()
+	for _, d := range []string{"/simroot", "/simroot/work", "/simroot/work/dir", "/simroot/tmp", "simroot", "simroot/work", "simroot/work/dir", "simroot/tmp"} {
+		mfs.MkdirAll(d, 0o755)
+	}
+	for _, pre := range []string{"/", ""} {
+		mfs.WriteFile(pre+"simroot/work/a.txt", []byte("alpha-vos\nline2-vos\n"), 0o644)
+		mfs.WriteFile(pre+"simroot/work/dir/b.txt", []byte("beta-vos"), 0o644)
+	}
+	return ros.NewVirtualOS(ctx,
+		ros.WithCwd("/simroot/work"),
+		ros.WithMounts(map[string]*ros.Mount{"/": {Source: mfs, Target: "/", Type: "mem"}}),
+		ros.WithEnvironment(map[string]string{"VERIF_SENTINEL": "vos-value", "SIMONLY": "vos-only"}),
+		ros.WithArgs([]string{"vos-arg0"}),
+		ros.WithExitHandler(func(int) {}),
+	)
 }
 
 // c12Leak reports data of the real machine (or of the decoy machine) in a result.
